@@ -51,14 +51,15 @@ def make_inputs(tier, seed):
     made = 0
     while made < n:
         kind = made % 4
-        d = G.gen_case(rng, nf=5, no=5, gens=True, with_ctx=(kind == 3), faults=(rng.randrange(1, 3) if kind == 2 else 0), weird=False)
+        d = G.gen_case(rng, nf=5, no=5, gens=True, with_ctx=(kind == 3), faults=(rng.randrange(1, 3) if kind == 2 else 0), weird=False,
+                       **({"gen2": True} if "gen2" in G.gen_case.__code__.co_varnames else {}))
         if kind == 3:
             # generators and contexts together are only safe when the combined item graph is acyclic
             pass
         if not acyclic(d):
             continue
         made += 1
-        gen_objs = [["O", int(o)] for o, sp in d["unwrap"].items() if sp[0] == "gen"]
+        gen_objs = [["O", int(o)] for o, sp in d["unwrap"].items() if sp[0] in ("gen", "gen2")]
         roots = ([d["root"]] + [g for g in gen_objs if g != d["root"]]) if tier == "quick" \
             else [["O", o] for o in range(d["no"])] + [["F", 0]]
         for root in roots:
@@ -221,7 +222,8 @@ def _run_case(desc):
         x, st = captured[-1]
         obs["direct"] = origin_contract(st, with_contexts=False) or outermost_contract(x, st, with_contexts=False) or True
         # ground truth for synthetic generators: the frame of generator o has origin o
-        gens = {int(o): s[1] for o, s in desc["unwrap"].items() if s[0] == "gen"}
+        # ("gen2" = a second live instance of the same generator function: same code object, own frame)
+        gens = {int(o): s[1] for o, s in desc["unwrap"].items() if s[0] in ("gen", "gen2")}
         for f in obs["frames"]:
             owner = [o for o, fo in gens.items() if fo == f["f"]]
             if f["org"] is not None and [f["org"]] != owner:
